@@ -32,23 +32,32 @@ func (r *C15Run) ev(format string, args ...any) {
 	r.trace = append(r.trace, fmt.Sprintf(format, args...)+"\n"...)
 }
 
-// styled serialises identifiers in one of three ways: default prefix, declared prefix, absolute URI.
+// c15Namespaces is the context of every generated payload. The prefix names overlap as strings ("t", "t1",
+// "t12") and map to different expansions, as the prefixes ns1, ns12 ... of a hub with many namespaces do.
+var c15Namespaces = map[string]any{"_": ExE, "t": ExE, "t12": ExE, "t1": ExS, "s": ExS}
+
+// styled serialises identifiers in several ways: default prefix, declared prefixes, absolute URI.
 func styled(seed int) func(string) string {
 	return func(s string) string {
 		h := int(hashStr(s)%7) + seed
 		switch {
 		case strings.HasPrefix(s, MkE):
-			switch h % 3 {
+			switch h % 4 {
 			case 0:
 				return s[len(MkE):] // no prefix: the context's default namespace "_"
 			case 1:
 				return "t:" + s[len(MkE):]
+			case 2:
+				return "t12:" + s[len(MkE):]
 			default:
 				return ExE + s[len(MkE):]
 			}
 		case strings.HasPrefix(s, MkS):
-			if h%2 == 0 {
+			switch h % 3 {
+			case 0:
 				return "s:" + s[len(MkS):]
+			case 1:
+				return "t1:" + s[len(MkS):]
 			}
 			return ExS + s[len(MkS):]
 		}
@@ -57,11 +66,24 @@ func styled(seed int) func(string) string {
 }
 
 func styledBody(ents []Ent, seed int) []any {
-	all := []any{map[string]any{"id": "@context", "namespaces": map[string]any{"_": ExE, "t": ExE, "s": ExS}}}
+	all := []any{map[string]any{"id": "@context", "namespaces": c15Namespaces}}
 	for _, e := range ents {
 		all = append(all, mapEntity(e, styled(seed)))
 	}
 	return all
+}
+
+// styledTxn is the body of POST /transactions: a context and one entity array per dataset.
+func styledTxn(parts []Part, seed int) map[string]any {
+	body := map[string]any{"@context": map[string]any{"namespaces": c15Namespaces}}
+	for _, p := range parts {
+		l := []any{}
+		for _, e := range p.Ents {
+			l = append(l, mapEntity(e, styled(seed)))
+		}
+		body[p.DS] = l
+	}
+	return body
 }
 
 // mutate applies a wrongly typed token to element idx (1-based position in the array; 0 = context).
@@ -104,13 +126,24 @@ func mutatePayload(all []any, kind string, idx int) []byte {
 		delete(cp[0].(map[string]any), "namespaces")
 	case "unknown-prefix":
 		ent["id"] = "zz:thing"
+	case "extra-token-member":
+		ent["token"] = "abc"
+	case "extra-object-member":
+		ent["zextra"] = map[string]any{"id": "t:hijacked", "props": map[string]any{"s:hijacked": true}, "deleted": true}
+	case "extra-array-member":
+		ent["zextra"] = []any{"id", "t:hijacked", "deleted", true}
 	}
 	b, _ := json.Marshal(cp)
 	return b
 }
 
 var c15TokenKinds = []string{"id-number", "id-null", "id-object", "deleted-string", "deleted-number", "recorded-string", "refs-number", "refs-null",
-	"refs-nested", "props-array", "props-string", "entity-number", "namespaces-array", "namespaces-value-number", "unknown-prefix"}
+	"refs-nested", "props-array", "props-string", "entity-number", "namespaces-array", "namespaces-value-number", "unknown-prefix",
+	"extra-token-member", "extra-object-member", "extra-array-member"}
+
+// members the format does not define: a receiver may refuse the payload or ignore the member, but what it
+// stores must be the entity as given without it
+func c15MayIgnore(kind string) bool { return strings.HasPrefix(kind, "extra-") }
 
 // prefixState finds i <= maxPrefix such that the dataset equals the model plus the first i entities.
 func prefixState(h *Hub, m *Model, ds string, ents []Ent, maxPrefix int, pool []string) (int, *Violation) {
@@ -186,7 +219,7 @@ func RunC15Scenario(sc *Scenario) (vd *Verdict) {
 		_, _ = r.A.Dsm.CreateDataset(d, nil)
 		r.MA.Create(d)
 	}
-	for _, d := range []string{"copy", "pushed", "mal"} {
+	for _, d := range []string{"copy", "pushed", "mal", "tx1", "tx2", "tx3"} {
 		_, _ = r.B.Dsm.CreateDataset(d, nil)
 		r.MB.Create(d)
 	}
@@ -314,6 +347,74 @@ func RunC15Scenario(sc *Scenario) (vd *Verdict) {
 				r.Stats["damaged_transfers_checked"]++
 			}
 			r.ev("%s faulty=%v err=%v", op.K, faulty, lastErr != "")
+		case "txn":
+			body := styledTxn(op.Parts, op.N)
+			kind, _ := op.M["kind"].(string)
+			b, _ := json.Marshal(body)
+			switch kind {
+			case "truncate":
+				at := intOf(op.M, "at") % (len(b) - 1)
+				if at < 1 {
+					at = 1
+				}
+				b = b[:at]
+			case "dataset-object":
+				body[op.Parts[0].DS] = map[string]any{"id": "t:x"}
+				b, _ = json.Marshal(body)
+			case "dataset-string":
+				body[op.Parts[len(op.Parts)-1].DS] = "oops"
+				b, _ = json.Marshal(body)
+			case "entity-id-number":
+				if l := body[op.Parts[len(op.Parts)-1].DS].([]any); len(l) > 0 {
+					l[len(l)-1].(map[string]any)["id"] = 7
+				} else {
+					kind = ""
+				}
+				b, _ = json.Marshal(body)
+			case "namespaces-array":
+				body["@context"] = map[string]any{"namespaces": []any{}}
+				b, _ = json.Marshal(body)
+			case "unknown-dataset":
+				body["nosuchdataset"] = []any{map[string]any{"id": "t:x"}}
+				b, _ = json.Marshal(body)
+			}
+			code, resp := r.B.Do("POST", "/transactions", nil, b)
+			r.Stats["transactions_posted"]++
+			if kind == "" {
+				if code != 200 {
+					fail(viol("C15", "roundtrip", fmt.Sprintf("valid-transaction-rejected:%d", code), "a valid transaction payload was answered %d %s: %s", code, strings.TrimSpace(string(resp)), clip(string(b))), i)
+					return
+				}
+				for _, p := range op.Parts {
+					r.MB.Batch(p.DS, p.Ents)
+				}
+			} else {
+				r.Stats["malformed_posts"]++
+				r.Stats["malformed_txn_"+kind]++
+				if code < 400 {
+					fail(viol("C15", "malformed", "malformed-transaction-accepted:"+kind, "a transaction payload with a %s defect was answered %d: %s", kind, code, clip(string(b))), i)
+					return
+				}
+			}
+			// a transaction is stored as a whole or not at all
+			for _, ds := range []string{"tx1", "tx2", "tx3"} {
+				v := CheckLatest(r.B, r.MB, ds, r.Pool, nil)
+				if v == nil {
+					v = CheckFeed(r.B, r.MB, ds, nil)
+				}
+				if v != nil {
+					v.Property, v.Oracle = "C15", "roundtrip"
+					if kind == "" {
+						v.Signature = "transaction:posted-differs-from-stored:" + v.Signature
+					} else {
+						v.Oracle, v.Signature = "malformed", "stored-from-malformed-transaction:"+kind
+					}
+					v.Message = fmt.Sprintf("after POST /transactions (%s, answered %d) dataset %s: %s; payload %s", kind, code, ds, v.Message, clip(string(b)))
+					fail(v, i)
+					return
+				}
+			}
+			r.ev("txn %s %d", kind, code)
 		case "malformed":
 			all := styledBody(op.Ents, op.N)
 			var body []byte
@@ -348,6 +449,21 @@ func RunC15Scenario(sc *Scenario) (vd *Verdict) {
 			code, resp := r.B.Do("POST", "/datasets/mal/entities", nil, body)
 			r.Stats["malformed_posts"]++
 			r.Stats["malformed_"+kind]++
+			if code < 400 && c15MayIgnore(kind) {
+				r.MB.Batch("mal", op.Ents)
+				v := CheckLatest(r.B, r.MB, "mal", r.Pool, nil)
+				if v == nil {
+					v = CheckFeed(r.B, r.MB, "mal", nil)
+				}
+				if v != nil {
+					v.Property, v.Oracle, v.Signature = "C15", "malformed", "stored-from-malformed-element:"+kind
+					v.Message = fmt.Sprintf("a payload with an undefined member (%s) was answered %d, but what was stored is not the entities as given without that member: %s; payload %s", kind, code, v.Message, clip(string(body)))
+					fail(v, i)
+					return
+				}
+				r.ev("malformed %s ignored", kind)
+				break
+			}
 			if code < 400 {
 				fail(viol("C15", "malformed", "malformed-payload-accepted:"+kind, "a payload with a %s defect was answered %d: %s", kind, code, clip(string(body))), i)
 				return
